@@ -572,5 +572,5 @@ func TestC13(t *testing.T) {
 	if !complete {
 		return
 	}
-	c13Sub.rapidCheck(t, pickTier(12000, 40000), c13Gen)
+	c13Sub.rapidCheck(t, pickTier(12000, 120000), c13Gen)
 }
